@@ -176,27 +176,30 @@ theorem doStitch_ok (P : Nat → β × α → Prop) (snapped : List (Ival α)) (
     rw [hcols]
     exact this
 
-/-- the tables `materialize_tree` hands to `build_table` (for non-empty column lists) are well-typed for `P`: an assumption of the
-composed theorems, discharged for concrete `P` from the one-cluster theorems -/
-def MaterializeOK (E : Env α) (F : Forest α) (convs : List (Conv α)) (P : Nat → Cell α × α → Prop) : Prop :=
-  ∀ (cols : List Nat), 1 ≤ cols.length → ∀ (streams : List Nat × List (Draw α)) (s s' : List (Draw α)) (res : MTable (Cell α) α),
+/-- the tables `materialize_tree` hands to `build_table`, for the column lists `Q` singles out (the clusters of the plan at hand), are
+well-typed for `P`: an assumption of the composed theorems, discharged for concrete `P` from the one-cluster theorems -/
+def MaterializeOKFor (E : Env α) (F : Forest α) (convs : List (Conv α)) (Q : List Nat → Prop) (P : Nat → Cell α × α → Prop) : Prop :=
+  ∀ (cols : List Nat), Q cols → ∀ (streams : List Nat × List (Draw α)) (s s' : List (Draw α)) (res : MTable (Cell α) α),
     (materializeGM E F convs cols streams).run s = .ok (res, s') → TableOK P res
 
-/-- **`build_table`, cells.**  Whatever the plan (non-empty clusters) and the RNG streams, if every microtable is well-typed for
-`P`, so is the table `build_table` assembles: every cell of the synthetic table is, under its own column, a cell of some cluster's
-microtable. -/
-theorem buildTable_cells (E : Env α) (F : Forest α) (convs : List (Conv α)) (isIntegral : List Bool) (entropy : List α)
+/-- for every non-empty column list -/
+def MaterializeOK (E : Env α) (F : Forest α) (convs : List (Conv α)) (P : Nat → Cell α × α → Prop) : Prop :=
+  MaterializeOKFor E F convs (fun cols => 1 ≤ cols.length) P
+
+/-- **`build_table`, cells, for the clusters of a plan.**  If the microtable of every cluster of the plan (`Q` holds of the initial cluster
+and of `stitch ++ derived` of every derived cluster) is well-typed for `P`, so is the table `build_table` assembles. -/
+theorem buildTable_cells_for (E : Env α) (F : Forest α) (convs : List (Conv α)) (isIntegral : List Bool) (entropy : List α)
     (threshRel : α) (cl : Clusters) (streams : List (List Nat × List (Draw α))) (s s' : List (Draw α))
-    (res : MTable (Cell α) α) (P : Nat → Cell α × α → Prop)
-    (hini : 1 ≤ cl.initial.length) (hder : ∀ dc ∈ cl.derivedClusters, 1 ≤ dc.derived.length)
-    (hM : MaterializeOK E F convs P)
+    (res : MTable (Cell α) α) (Q : List Nat → Prop) (P : Nat → Cell α × α → Prop)
+    (hini : Q cl.initial) (hder : ∀ dc ∈ cl.derivedClusters, Q (dc.stitch ++ dc.derived))
+    (hM : MaterializeOKFor E F convs Q P)
     (h : (buildTable E F convs isIntegral entropy threshRel cl streams).run s = .ok (res, s')) :
     TableOK P res := by
   unfold buildTable at h
   obtain ⟨acc0, s0, h0, h⟩ := StateT_bind_ok _ _ _ _ _ h
   have hinit := hM _ hini _ _ _ _ h0
   have key : ∀ (l : List (DerivedCluster × Nat)) (acc : MTable (Cell α) α) (s1 s2 : List (Draw α)) (r : MTable (Cell α) α),
-      (∀ p ∈ l, 1 ≤ p.1.derived.length) → TableOK P acc →
+      (∀ p ∈ l, Q (p.1.stitch ++ p.1.derived)) → TableOK P acc →
       (l.foldlM (fun acc (p : DerivedCluster × Nat) => do
         let right ← materializeGM E F convs (p.1.stitch ++ p.1.derived) (streams.getD (p.2 + 1) ([], []))
         if p.1.stitch.isEmpty then doPatch acc right
@@ -214,7 +217,7 @@ theorem buildTable_cells (E : Env α) (F : Forest α) (convs : List (Conv α)) (
       rw [List.foldlM_cons] at hr
       obtain ⟨acc1, s3, hstep, hr⟩ := StateT_bind_ok _ _ _ _ _ hr
       obtain ⟨right, s4, hm, hstep⟩ := StateT_bind_ok _ _ _ _ _ hstep
-      have hright := hM _ (by have := hl p (List.mem_cons_self ..); simp only [List.length_append]; omega) _ _ _ _ hm
+      have hright := hM _ (hl p (List.mem_cons_self ..)) _ _ _ _ hm
       have hacc1 : TableOK P acc1 := by
         split_ifs at hstep
         · exact (doPatch_ok P acc right acc1 _ _ hacc hright hstep).1
@@ -223,6 +226,19 @@ theorem buildTable_cells (E : Env α) (F : Forest α) (convs : List (Conv α)) (
   refine key _ acc0 s0 s' res ?_ hinit h
   intro p hp
   exact hder p.1 (List.of_mem_zip hp).1
+
+/-- **`build_table`, cells.**  Whatever the plan (non-empty clusters) and the RNG streams, if every microtable is well-typed for
+`P`, so is the table `build_table` assembles: every cell of the synthetic table is, under its own column, a cell of some cluster's
+microtable. -/
+theorem buildTable_cells (E : Env α) (F : Forest α) (convs : List (Conv α)) (isIntegral : List Bool) (entropy : List α)
+    (threshRel : α) (cl : Clusters) (streams : List (List Nat × List (Draw α))) (s s' : List (Draw α))
+    (res : MTable (Cell α) α) (P : Nat → Cell α × α → Prop)
+    (hini : 1 ≤ cl.initial.length) (hder : ∀ dc ∈ cl.derivedClusters, 1 ≤ dc.derived.length)
+    (hM : MaterializeOK E F convs P)
+    (h : (buildTable E F convs isIntegral entropy threshRel cl streams).run s = .ok (res, s')) :
+    TableOK P res :=
+  buildTable_cells_for E F convs isIntegral entropy threshRel cl streams s s' res (fun cols => 1 ≤ cols.length) P hini
+    (fun dc hdc => by have := hder dc hdc; simp only [List.length_append]; omega) hM h
 
 /-- **`build_table`, rows.**  When every derived cluster is patched in (no stitch columns: `NoClustering`) or stitched with the
 left side as owner, the assembled table has exactly as many rows as the microtable of the initial cluster. -/
